@@ -298,7 +298,7 @@ func (e *Engine) builtin(st *State, name string, args []Value, ci ssa.CallInstru
 			return BV{Ite(lt, a, b)}
 		}
 		return BV{Ite(lt, b, a)}
-	case "clear":
+	case "clear", "close":
 		return nil
 	}
 	panic(abortSignal{fmt.Sprintf("builtin %s on %T", name, args[0])})
